@@ -476,6 +476,9 @@ loop:
 			return nil, 0, ErrParseFrame
 		}
 	}
+	if len(*buffer)-start > 255 { // name assembled through compression pointers is too long
+		return nil, 0, ErrParseFrame
+	}
 	if len(*buffer) <= start {
 		return (*buffer)[start:], index + 1, nil
 	}
